@@ -101,7 +101,8 @@ def alphabet(n, subs, rich=True):
     o.append(("bsnp", 1, n - 1))         # numpy-integer mode numbers are accepted like ints
     o.append(("her", 1, 1, n - 1, "np"))  # ... also as herald modes
     for nm in subs[:4]:
-        o.append(("add", nm, 1, False, "np"))   # ... and as the position of an addition
+        o.append(("add", nm, 1, False, "np"))   # ... and as the position of an addition (unsigned: arithmetic must not wrap)
+        o.append(("add", nm, 0, False, "np"))
     o.append(("her1", 1, n - 1))         # single-mode form: output defaults to the input mode
     if rich:
         o.append(("her", 0, 0, 1))
@@ -121,7 +122,7 @@ def run_program(n, prog, env, acc, sub_factory=make_sub):
             fp_s = full_fingerprint(s)
             fp_p = full_fingerprint(P) if not valid else None
             try:
-                P.add(s, np.int64(op[2]) if len(op) > 4 else op[2], group=op[3])
+                P.add(s, (np.uint8 if op[2] % 2 else np.int64)(op[2]) if len(op) > 4 else op[2], group=op[3])
                 err = None
             except lw.ModeRangeError as e:
                 err = e
@@ -183,7 +184,7 @@ def run_program(n, prog, env, acc, sub_factory=make_sub):
             fp_p = full_fingerprint(P) if not valid else None
             try:
                 if len(op) > 4:
-                    P.herald(op[1], np.int64(op[2]), np.int32(op[3]))
+                    P.herald(op[1], np.uint8(op[2]), np.int32(op[3]))
                 else:
                     P.herald(op[1], op[2], op[3])
                 ok = True
